@@ -516,7 +516,10 @@ def h_floor_like(fn):
         def f(x):
             if x.is_const():
                 return P.as_v(fn(x.const_value()))
-            raise Unsupported("floor/ceil of a symbolic value")
+            if fn in (math.floor, math.ceil):
+                # uninterpreted atom with the bracketing axioms (x <= ceil x < x + 1); integrality is not modelled
+                return P.atom_fun("floor" if fn is math.floor else "ceil", x)
+            raise Unsupported("round of a symbolic value")
 
         return map_obj(f, a)
 
